@@ -98,7 +98,7 @@ CA_FRAME_IFACE = [
 CA_SHRINK = ("C08.shrink", f"implies(result != PROBLEM_INCONSISTENT, forall(d, 0, D, {SS0}[{TOP}, d, MIN] <= {SS}[{TOP}, d, MIN] and {SS}[{TOP}, d, MIN] <= {SS}[{TOP}, d, MAX] and {SS}[{TOP}, d, MAX] <= {SS0}[{TOP}, d, MAX]))")
 CA_STATUS = ("C01.status", "result == PROBLEM_INCONSISTENT or result == PROBLEM_UNBOUND or result == PROBLEM_BOUND")
 CA_BOUND = ("C01.bound", f"implies(result == PROBLEM_BOUND, forall(d, 0, D, {SS}[{TOP}, d, MIN] == {SS}[{TOP}, d, MAX]))")
-CA_UNBOUND = ("C01.unbound", f"implies(result == PROBLEM_UNBOUND, exists(d, 0, D, {SS}[{TOP}, d, MIN] < {SS}[{TOP}, d, MAX]))")
+CA_UNBOUND = ("C01.unbound", f"implies(result == PROBLEM_UNBOUND, exists(d, 0, D, trig(d) == d and {SS}[{TOP}, d, MIN] < {SS}[{TOP}, d, MAX]))")
 
 PROP_IFACE_T = {"domains": "i32[n,2]", "parameters": "i32[m]"}
 PROP_IFACE_REQ = [("box_nonempty", "forall(k, 0, n, domains[k, MIN] <= domains[k, MAX])")]
